@@ -1,33 +1,18 @@
-"""Registry of claimed properties: where the theorems live, which harness ties the model to /repo."""
+"""Registry of claimed properties: where the theorems live, which harness ties the model to /repo.
 
-GUARD_ENV = "QAC_VERIF"
-HOOK_COMMITS = []
-NOT_APPLICABLE = {}
+Each property has one file lib/props.d/<ID>.py defining PID and ENTRY (a dict, see C17.py)."""
+import glob
+import importlib.util
+import os
+import sys
 
-STD_NOTE = ("Trusted: Coq 8.16.1 kernel + vm_compute; the hand-written Gallina model (tied to the source by the correspondence check and "
-            "the regenerated facts, not verified against Python semantics); tools/extract_facts.py; the harness case writers. "
-            "Binary64 rounding is not modelled. ")
+_here = os.path.dirname(os.path.abspath(__file__))
+sys.path.insert(0, _here)
+from props_common import GUARD_ENV, HOOK_COMMITS, NOT_APPLICABLE, STD_NOTE  # noqa: E402,F401
 
-PROPS = {
-    "C17": dict(
-        title="Restricting and expanding observables is faithful to qubit identity",
-        prop_file="Properties/C17.v",
-        corr_files=["Corr/C17Corr.v"],
-        theorems=["c17_restrict", "c17_decompose", "c17_members", "c17_recombine", "c17_expand",
-                  "c17_refuses_count", "c17_refuses_missing", "c17_facts"],
-        allowed_axioms=[],
-        facts=["value_error_sites"],
-        harness="c17",
-        level_text="Unbounded theorems (all list lengths, all label sequences, all qubit identity lists) about the executable model of "
-                   "restriction/decomposition/expansion of observables: letters kept in order, phase dropped/kept, partition recombines to the "
-                   "original string, refusals. Closed under the global context. The model is run against the implementation on >1000 generated "
-                   "cases per run.",
-        level_note=STD_NOTE + "No axioms.",
-        assumptions=[
-            "Model/Observables.v is a hand-written model of observables_restricted_to_subsystem, decompose_observables, expand_observables; "
-            "tied to /repo by the C17 correspondence (vm_compute of the model on the inputs the implementation ran on)",
-            "Qubit objects are modelled as identity tags; PauliList symplectic arrays as one letter per qubit index",
-            "labels are interned by Python ==/hash classes (dict-key semantics)",
-        ],
-    ),
-}
+PROPS = {}
+for _f in sorted(glob.glob(os.path.join(_here, "props.d", "*.py"))):
+    _spec = importlib.util.spec_from_file_location("props_d_" + os.path.basename(_f)[:-3], _f)
+    _m = importlib.util.module_from_spec(_spec)
+    _spec.loader.exec_module(_m)
+    PROPS[_m.PID] = _m.ENTRY
